@@ -73,6 +73,29 @@ pub fn minimise(trace: &Trace, test: &mut dyn FnMut(&Trace) -> bool, budget: usi
         }
     }
 
+    // 2b. one cache instead of two: drop the clone ops and retarget everything to cache 0
+    if best.ops.iter().any(|o| o.target == 1 || matches!(o.kind, OpKind::CloneTo)) {
+        let mut cand = best.clone();
+        cand.ops.retain(|o| !matches!(o.kind, OpKind::CloneTo));
+        for o in cand.ops.iter_mut() {
+            o.target = 0;
+        }
+        if try_it(&cand, &mut evals) {
+            best = cand;
+            // ops that only existed for the other cache may now be removable
+            let mut i = 0;
+            while i < best.ops.len() && evals < budget {
+                let mut c2 = best.clone();
+                c2.ops.remove(i);
+                if try_it(&c2, &mut evals) {
+                    best = c2;
+                } else {
+                    i += 1;
+                }
+            }
+        }
+    }
+
     // 3. argument simplification per op
     let mut idx = 0;
     while idx < best.ops.len() && evals < budget {
